@@ -15,6 +15,7 @@ import (
 	"regexp"
 	"runtime/debug"
 	"sort"
+	"strings"
 	"time"
 
 	"github.com/nyaruka/gocommon/dates"
@@ -108,8 +109,18 @@ func (r *offlineRequestor) Do(c *http.Client, req *http.Request) (resp *http.Res
 			return resp, err
 		}
 	}
+	// http://.../bare/<name> answers with a body that is a bare JSON value (or not JSON at all)
+	if i := strings.Index(req.URL.Path, "/bare/"); i >= 0 {
+		body, ok := bareBodies[req.URL.Path[i+6:]]
+		if ok {
+			return httpx.NewMockResponse(200, map[string]string{"Content-Type": "application/json"}, []byte(body)).Make(req), nil
+		}
+	}
 	return httpx.NewMockResponse(200, nil, []byte(`{"ok":true}`)).Make(req), nil
 }
+
+var bareBodies = map[string]string{"true": "true", "false": "false", "null": "null", "number": "7.5", "text": `"x"`, "array": `[true, null, {"a": false}]`, "emptyarray": "[]",
+	"object": `{"t": true, "n": null, "o": {}}`, "emptyobject": "{}", "empty": "", "junk": "<html>", "nested": `[[[[]]]]`}
 
 type okSender struct{}
 
